@@ -72,6 +72,14 @@ func fill(cfg vlib.Cfg, sp *caseSpec) {
 		sp.Repeat = 1
 	}
 	sp.StdErr = r.Bool()
+	// Delay at modules.task.defer: without it a task that finishes at once can overtake
+	// its watcher goroutine, which then stalls the task queue for maxExecutionWait
+	// (1 min; a task-scheduling defect outside this property). Thorough keeps some
+	// cases without the delay.
+	sp.TaskDeferUS = vlib.Pick(r, 1000, 2000, 4000)
+	if cfg.Thorough() && r.Chance(1, 8) {
+		sp.TaskDeferUS = 0
+	}
 	switch sp.Part {
 	case "work":
 		n := r.Range(0, 6)
@@ -81,6 +89,9 @@ func fill(cfg vlib.Cfg, sp *caseSpec) {
 		}
 		pos := r.Range(0, n)
 		sp.Before, sp.After = hs[:pos], hs[pos:]
+		if sp.AtStop {
+			sp.Before, sp.After = hs, nil
+		}
 	case "life":
 		sp.Repeat = 1
 		sp.Siblings = r.Range(0, 3)
@@ -110,18 +121,11 @@ func genCases(cfg vlib.Cfg) []caseSpec {
 		cases = append(cases, sp)
 	}
 	kinds := allKinds()
-	rounds := cfg.N(1, 4)
+	rounds := cfg.N(1, 12)
 	rr := vlib.NewRand(cfg.Seed, "C06/plan", 0)
 	for round := 0; round < rounds; round++ {
 		for _, k := range kinds {
-			vals := append([]string{}, coreValues...)
-			if cfg.Thorough() {
-				vals = append(vals, extraValues...)
-			} else {
-				ex := append([]string{}, extraValues...)
-				vlib.Shuffle(rr, ex)
-				vals = append(vals, ex[:2]...)
-			}
+			vals := append(append([]string{}, coreValues...), extraValues...)
 			for _, v := range vals {
 				add(caseSpec{Kind: k, Value: v, Build: "plain"})
 				// the race build repeats the matrix (fresh healthy mix): all of it in
@@ -150,13 +154,19 @@ func genCases(cfg vlib.Cfg) []caseSpec {
 	}
 	// two items panic at the same moment (at most one of them a task: the task queue
 	// executes one task at a time)
-	for i := 0; i < cfg.N(12, 120); i++ {
+	for i := 0; i < cfg.N(12, 300); i++ {
 		a := vlib.Pick(rr, workKinds...)
 		b := vlib.Pick(rr, workKinds...)
 		for isTaskKind(a) && isTaskKind(b) {
 			b = vlib.Pick(rr, workKinds...)
 		}
 		add(caseSpec{Kind: a, Value: vlib.Pick(rr, coreValues...), SecondKind: b, SecondValue: vlib.Pick(rr, coreValues...), Build: vlib.Pick(rr, "plain", "race")})
+	}
+	// the item panics while the module is being stopped
+	for _, k := range workKinds {
+		for i := 0; i < cfg.N(2, 20); i++ {
+			add(caseSpec{Kind: k, Value: vlib.Pick(rr, append(coreValues, extraValues...)...), Build: vlib.Pick(rr, "plain", "race"), AtStop: true})
+		}
 	}
 	for i := range cases {
 		if cases[i].Build == "race" && cfg.BinRace == "" {
@@ -167,7 +177,7 @@ func genCases(cfg vlib.Cfg) []caseSpec {
 }
 
 func caseSig(sp caseSpec) string {
-	return fmt.Sprintf("%s|%s|%d|%s/%s|b=%s|a=%s|sib=%d %v|%s %v %v", sp.Kind, sp.Value, sp.Repeat, sp.SecondKind, sp.SecondValue,
+	return fmt.Sprintf("%v|%s|%s|%d|%s/%s|b=%s|a=%s|sib=%d %v|%s %v %v", sp.AtStop, sp.Kind, sp.Value, sp.Repeat, sp.SecondKind, sp.SecondValue,
 		strings.Join(sp.Before, ","), strings.Join(sp.After, ","), sp.Siblings, sp.Delays, sp.Method, sp.DevMode, sp.Late)
 }
 
@@ -180,8 +190,10 @@ type failure struct {
 }
 
 // functions that hold the state the property's mechanism is made of (error sink)
+// (narrowed after the first runs: runWorker / runMicroTask also read Module.Ctx, whose
+// unsynchronised write in Module.start is not this property's state)
 var raceScope = []string{"modules.(*ModuleError).Report", "modules.GetLastReportedError", "modules.SetErrorReportingChannel",
-	"modules.(*Module).NewPanicError", "modules.(*Module).startCtrlFn", "modules.(*Module).runWorker", "modules.(*Module).runMicroTask"}
+	"modules.(*Module).NewPanicError", "modules.(*Module).startCtrlFn"}
 
 func orchestrate() {
 	cfg := vlib.Load()
@@ -217,7 +229,7 @@ func orchestrate() {
 		}
 		for _, rr := range c.Races {
 			switch {
-			case rr.HarnessOnly():
+			case rr.HarnessOnly() || harnessAccess(rr):
 				rep.Note("race report in harness-only frames: %s", rr.Signature())
 				rep.Count("race_reports_harness_only", 1)
 			case rr.InScope(raceScope...):
@@ -232,12 +244,21 @@ func orchestrate() {
 		}
 		if !c.Done {
 			tail := c.StderrTail(6000)
-			if line := deathLine(tail); line != "" || c.Exit == 2 {
-				addFail("process-died", sp.Kind, sp.Value,
-					fmt.Sprintf("the process terminated (exit=%d signal=%q) while a %s panicked with a %s value: %s", c.Exit, c.Signal, sp.Kind, sp.Value, line),
-					map[string]any{"spec": sp, "exit": c.Exit, "signal": c.Signal, "stderr_tail": tail, "stdout_tail": c.StdoutTail(1500)})
-				markExecuted(executed, sp)
+			line, crash, escaped, site := classifyDeath(c.Dir)
+			if line != "" || c.Exit == 2 {
+				det := map[string]any{"spec": sp, "exit": c.Exit, "signal": c.Signal, "death_line": line, "crashing_goroutine": crash,
+					"stderr_tail": tail, "stdout_tail": c.StdoutTail(1500)}
 				rep.Count("children_died", 1)
+				if escaped {
+					addFail("process-died", sp.Kind, sp.Value,
+						fmt.Sprintf("the panic raised inside the %s left the recovery and terminated the process (exit=%d): %s", sp.Kind, c.Exit, line), det)
+					markExecuted(executed, sp)
+				} else {
+					// the process died, but not of the managed panic: a different defect,
+					// named by where it crashed
+					rep.Violation(fmt.Sprintf("%s:process-died-elsewhere:%s", prop, site),
+						fmt.Sprintf("the process terminated (exit=%d) during a case with a panicking %s, by a fatal error outside the managed function: %s", c.Exit, sp.Kind, line), det)
+				}
 			} else {
 				rep.Inconclusive("case %s: child ended without result (exit=%d signal=%q) and without a Go panic/fatal error on stderr: %s", c.Name, c.Exit, c.Signal, trunc(tail, 400))
 			}
@@ -248,7 +269,11 @@ func orchestrate() {
 			rep.Inconclusive("case %s: unreadable child output: %s", c.Name, err)
 			return
 		}
-		if out.HarnessProblem != "" {
+		hasFail := false
+		for _, ck := range out.Checks {
+			hasFail = hasFail || (!ck.OK && !ck.Undecided)
+		}
+		if out.HarnessProblem != "" && !hasFail {
 			nHarness++
 			rep.Inconclusive("case %s: scenario could not be set up: %s", c.Name, out.HarnessProblem)
 			return
@@ -271,6 +296,9 @@ func orchestrate() {
 		if sp.Repeat > 1 {
 			rep.Count("cases_repeated_panic", 1)
 		}
+		if sp.AtStop {
+			rep.Count("cases_panic_while_stopping", 1)
+		}
 		for _, h := range append(append([]string{}, sp.Before...), sp.After...) {
 			rep.Seen("healthy_kinds_alongside", h)
 		}
@@ -288,6 +316,8 @@ func orchestrate() {
 			rep.Count("checks_evaluated", 1)
 			rep.Count("check_"+ck.Oracle, 1)
 			switch {
+			case ck.Undecided && hasFail && strings.HasPrefix(ck.What, "(not judged"):
+				rep.Count("checks_skipped_after_failure", 1)
 			case ck.Undecided:
 				nUndecided++
 				rep.Inconclusive("case %s: %s/%s undecided: %s", c.Name, ck.Oracle, ck.Kind, trunc(ck.What, 500))
@@ -362,16 +392,36 @@ func orchestrate() {
 	}
 }
 
+// harnessAccess reports whether both racing accesses are made by harness code (its
+// callbacks run below portbase frames, so vlib's HarnessOnly does not see this).
+func harnessAccess(rr vlib.RaceReport) bool {
+	own := func(i int) bool {
+		if i >= len(rr.Stacks) {
+			return false
+		}
+		for _, f := range rr.Stacks[i] {
+			switch {
+			case strings.HasPrefix(f, "runtime."), strings.HasPrefix(f, "reflect."), strings.HasPrefix(f, "encoding/"),
+				strings.HasPrefix(f, "sync."), strings.HasPrefix(f, "sync/"), strings.HasPrefix(f, "internal/"):
+				continue
+			}
+			return strings.HasPrefix(f, "main.") || strings.HasPrefix(f, "verifharness/")
+		}
+		return false
+	}
+	return own(0) && own(1)
+}
+
 func markExecuted(m map[string]map[string]bool, sp caseSpec) {
 	if m[sp.Kind] == nil {
 		m[sp.Kind] = map[string]bool{}
 	}
 	m[sp.Kind][sp.Value] = true
 	if sp.SecondKind != "" {
-		if m[sp.SecondKind] == nil {
-			m[sp.SecondKind] = map[string]bool{}
+		if m["two-at-once"] == nil {
+			m["two-at-once"] = map[string]bool{}
 		}
-		m[sp.SecondKind][sp.SecondValue] = true
+		m["two-at-once"]["any"] = true
 	}
 }
 
@@ -384,6 +434,59 @@ func deathLine(tail string) string {
 		}
 	}
 	return ""
+}
+
+// classifyDeath reads the whole stderr of a dead child: the announcement line, the
+// crashing goroutine, whether that goroutine was running the harness' panicking
+// function (the managed panic escaped) and otherwise the innermost portbase frame.
+func classifyDeath(dir string) (line, crash string, escaped bool, site string) {
+	b, err := os.ReadFile(dir + "/stderr")
+	if err != nil {
+		return "", "", false, "unknown"
+	}
+	lines := strings.Split(string(b), "\n")
+	at := -1
+	for i, ln := range lines {
+		if strings.HasPrefix(ln, "panic: ") || strings.HasPrefix(ln, "fatal error: ") {
+			// the error report printed to stderr contains "panic:" only inside lines
+			line, at = trunc(strings.TrimSpace(ln), 200), i
+			break
+		}
+	}
+	if at < 0 {
+		return "", "", false, "unknown"
+	}
+	// the first goroutine block after the announcement is the crashing one
+	var blk []string
+	started := false
+	for _, ln := range lines[at+1:] {
+		if strings.HasPrefix(ln, "goroutine ") {
+			if started {
+				break
+			}
+			started = true
+		}
+		if started {
+			if ln == "" {
+				break
+			}
+			blk = append(blk, ln)
+		}
+	}
+	crash = trunc(strings.Join(blk, "\n"), 3000)
+	escaped = strings.Contains(crash, "raiseVerifPanic")
+	site = "unknown"
+	for _, ln := range blk {
+		if strings.HasPrefix(ln, "github.com/safing/portbase/") {
+			fn := strings.TrimPrefix(ln, "github.com/safing/portbase/")
+			if i := strings.LastIndex(fn, "("); i > 0 {
+				fn = fn[:i]
+			}
+			site = fn
+			break
+		}
+	}
+	return line, crash, escaped, site
 }
 
 func replayCases(cfg vlib.Cfg) []caseSpec {
